@@ -53,7 +53,7 @@ CHECKS = {
  "C13": ("E4 crashx + E3 sched + constructor matrix", "model_checking",
          "three exhaustive enumerations on the real SQLite/SQLCipher backend: (A) every sequence of constructor calls (5 constructors x 2 paths; depth 2 quick, 3 thorough) from each of 6 initial file states (missing, empty, plain, encrypted by caller key, encrypted by keyring key, garbage), judged after every call by a reference model of the documented rules (who may open what; data visible after reopen; keyring entry created once and never replaced; refused open leaves the file byte-identical; no canary / plain header in an encrypted database directory; modes 0600 / 0700); (B) a scripted history with planted canaries on an encrypted database, every file of the database and temp directories byte-scanned for every needle after every API call, at every storage tick inside every call (observer hook) and after a process death at every storage tick (E4 crash enumeration); (C) 2..3 threads calling constructors on one path under the controlled scheduler: depth-first over every schedule up to a preemption bound (2; 3 thorough for new||new), schedule points = yield points in the constructors + the key-generation and connection mutexes",
          "A: all sequences up to the depth agree with the model. B: no needle in any file at any scan point; wrong key / no key / unencrypted constructor refused, right key shows the same data. C: data written through every successful open is there on reopen (one key, reused), owner-only modes, no plaintext header, no deadlock or panic, for every explored schedule.",
-         "Needles are the planted strings, group ids, the client's public key and every exporter secret of the scanned client (raw and hex); what SQLCipher writes is trusted to be ciphertext (not analysed). SQLITE_TEMP_STORE=2 is compiled into the bundled SQLCipher, so the temp_store pragma cannot be shown to matter in this build. Concurrent opens are interleaved at the listed points only (not inside SQLite); bound 2 preemptions. The mock keyring of keyring-core stands in for the platform keyring.",
+         "Needles are the planted strings, group ids, the client's public key and every exporter secret of the scanned client (raw and hex); what SQLCipher writes is trusted to be ciphertext (not analysed). SQLITE_TEMP_STORE=2 is compiled into the bundled SQLCipher as an overridable default: no statement of the histories spills to a temporary file, the check asserts PRAGMA temp_store = 2 on the encrypted connection instead. Concurrent opens are interleaved at the listed points only (not inside SQLite); bound 2 preemptions. The mock keyring of keyring-core stands in for the platform keyring.",
          "3/C13"),
  "C19": ("E3 sched", "model_checking",
          "stateless depth-first exploration of every schedule of real threads under a controlled scheduler (schedule points = every lock acquisition of the backend: memory RwLocks, SQLite connection mutex; a thread is enabled when its lock is free), one real execution per schedule, for every program set over three colliding operation alphabets (groups/relays/secrets, snapshots/MLS state, messages/dedup): shapes 1+1, 2+1, 1+1+1 (quick) plus 2+2, 2+1+1, 3+1 (thorough) on both backends; plus concurrent first opens of one database path (yield points in the SQLite constructors, preemption bound 2-3)",
